@@ -166,6 +166,9 @@ class CIACache(Singleton):
             if pair_filter is not None:
                 if pairname not in pair_filter:
                     continue
+            if pairname in self.cia_dict:
+                # A .db file for this pair has priority
+                continue
             op = HitranCIA(files)
             self.add_cia(op)
 
